@@ -3,6 +3,7 @@ from props.cuts import extract_lc_comparator
 
 F = "lc"
 PROP = {
+    "manifest": {'text': "STEP LEVEL. Clean power cycles as solver variables (boot time, per-boot delay, timestamps): K1 first message creates a record with start = boot+delay; K2 any further message of the same boot joins and start/end/count stay exact (inductive over the summary S(b)); K3/K4 the first message of the next boot never joins and the detector's merge guard is false for it - for ALL values (u32 timestamps, 64-bit times), except the recorded known finding (next boot's delay shorter than the previous one's by >= the off-time), which is excluded by role and re-confirmed by a witness harness on every run. NOT covered: the merge/confirm logic of the detector main loop; composition into whole traces is a paper induction.", 'note': "rustc front end, kani-compiler MIR->goto translation, CBMC 6.11 + cadical, Kani's allocation/slice models; stubs and textual cuts listed in the evidence; clean-trace model as in the property statement; one step, no loops in the code under test.", 'technique': 'bounded model checking of the real code (Kani/CBMC): inductive step lemmas over a symbolic trace summary'},
     "inject": [(LC_OWNER, "lc.rs")],
     "cuts": [extract_lc_comparator],
     "kf_roles": ["c08_next_boot_shorter_delay"],
